@@ -487,6 +487,23 @@ def eval_call(ex, node, st, want):
                 if node.keywords:
                     raise OutOfSubset('dict(x, **kw)')
                 return a
+            if isinstance(a.ty, T.Seq) and isinstance(a.ty.elem, T.Tup) and len(a.ty.elem.items) == 2 and not node.keywords:
+                # dict(list of (key, value) pairs): the keys are exactly the first components, the LAST pair of a key wins
+                kt, vt = a.ty.elem.items
+                mty = T.Map(kt, vt)
+                m = fresh_sv('dict_of_pairs', mty)
+                st.pc.extend(mty.wf(m.t))
+                n = seq_len(a)
+                k = z3.Const('k!dp%d' % next(_fresh_counter), kt.sort())
+                i = z3.Int('i!dp%d' % next(_fresh_counter))
+                j = z3.Int('j!dp%d' % next(_fresh_counter))
+                key_at = lambda ix: a.ty.elem.get(seq_get(a, ix).t, 0)
+                val_at = lambda ix: a.ty.elem.get(seq_get(a, ix).t, 1)
+                st.pc.append(z3.ForAll([k], map_has(m, k) == z3.Exists([i], z3.And(0 <= i, i < n, key_at(i) == k))))
+                st.pc.append(z3.ForAll([i], z3.Implies(
+                    z3.And(0 <= i, i < n, z3.ForAll([j], z3.Implies(z3.And(i < j, j < n), key_at(j) != key_at(i)))),
+                    map_get(m, key_at(i)).t == val_at(i)), patterns=[key_at(i)]))
+                return m
             raise OutOfSubset('dict() of %s' % a.ty)
         if name in ('all', 'any') and len(node.args) == 1 and isinstance(node.args[0], ast.GeneratorExp):
             return eval_all_any(ex, node, st, name)
@@ -1134,9 +1151,12 @@ def call_contract(ex, node, st, want, method_of=None):
     post = State()
     post.env = dict(callee_env)
     post.old = pre
+    havocked = []
     for cls, fld, ref in targets:
         key, fty = ex.heap_arr(st, cls, fld)
         newarr = z3.Const('heap!%s.%s!%d' % (key[0], key[1], next(_fresh_counter)), z3.ArraySort(T.RefSort, fty.sort()))
+        if ref is None:
+            havocked.append((key, newarr))
         if ref is not None:
             hv = fresh('hv_' + fld, fty)
             st.heap[key] = z3.Store(st.heap[key], ref, hv)
@@ -1155,6 +1175,11 @@ def call_contract(ex, node, st, want, method_of=None):
         nxt = z3.Int('alloc!%d' % next(_fresh_counter))
         st.pc.append(nxt >= st.heap[cnt_key])
         st.heap[cnt_key] = nxt
+    if ('$alloc', 'next') in st.heap:
+        for key, newarr in havocked:
+            f = ex.ghost_default_fact(key, newarr, st.heap[('$alloc', 'next')])
+            if f is not None:
+                st.pc.append(f)
     for m in con.mutates:
         mty = ctypes.get(m) or callee_env[m].ty
         nv = fresh_sv('mut_' + m, mty)
